@@ -5,7 +5,7 @@
 pub mod node;
 
 use self::node::Node;
-use crate::grammar::{Element, Module, NamedSymbol, Primitive};
+use crate::grammar::{Element, Entity, Module, NamedSymbol, Primitive};
 use crate::utils::ptr_util::{OwnedPtr, WeakPtr};
 use std::collections::HashMap;
 
@@ -337,6 +337,28 @@ impl Ast {
 
         // Add the element to this AST.
         self.add_element(element)
+    }
+
+    /// Removes every element that was added to this AST after it held `length` elements, along with their entries in
+    /// this AST's [lookup table](Ast::lookup_table).
+    ///
+    /// This is used to discard the elements of a file that failed to parse: members are added to the AST before their
+    /// containers, so a syntax error can leave members behind whose containers were never created. Their parent
+    /// pointers are invalid, and nothing must be able to look these elements up.
+    pub(crate) fn truncate(&mut self, length: usize) {
+        self.elements.truncate(length);
+        self.lookup_table.retain(|_, index| *index < length);
+
+        // A removed element may have replaced the entry of an element that is still here (one with the same scoped
+        // identifier), so we go through the remaining elements again, in the order they were added.
+        for (index, node) in self.elements.iter().enumerate() {
+            if let Node::Module(module_ptr) = node {
+                let scoped_identifier = module_ptr.borrow().parser_scoped_identifier();
+                self.lookup_table.entry(scoped_identifier).or_insert(index);
+            } else if let Ok(entity) = <&dyn Entity>::try_from(node) {
+                self.lookup_table.insert(entity.parser_scoped_identifier(), index);
+            }
+        }
     }
 
     /// Moves a module into this AST, and returns a [WeakPtr] to it, after adding an entry for the module into this
